@@ -23,7 +23,8 @@ ASSUMPTIONS = ['limit=0 not judged (in-memory/file read it as "no limit", S3 as 
                'reference matcher as in C14; unspecified cases may or may not be listed']
 
 CATS = ['Op', 'OpX', 'Op_x', 'Op_x_y', 'A', 'Job[v2]', 'A*', 'Q?x']
-CONFIGS = [('memory', ''), ('file', ''), ('s3', ''), ('s3', 'p'), ('s3', 'pp'), ('s3', 'svc/metadata'), ('s3', 'full')]
+CONFIGS = [('memory', ''), ('file', ''), ('s3', ''), ('s3', 'p'), ('s3', 'pp'), ('s3', 'svc/metadata'), ('s3', 'full'),
+           ('s3', 'jobs}{v2}'), ('s3', '${DEPLOY_ENV}/{{x}}/{0}')]      # key prefixes that hold format-string metacharacters
 INC = '_tape_recorder_incomplete_recording'
 
 
